@@ -197,6 +197,7 @@ class ExecCore:
                     if not outermost:
                         raise
                     self.nomerge_ifs |= set(rs.keys)
+                    self.nomerge_calls |= set(getattr(rs, "calls", ()))
                     self.memo.clear()
                     outcomes, work, n = [], [()], 0
                     continue
